@@ -7,6 +7,7 @@ CONSTANTS
   Acts = {"Alloc", "Unroot", "Spawn", "Collect", "HostMove"}
   TwoVMs = FALSE
   Emit = FALSE
+  Traps = {}
   Mutant = "nofull"
 VIEW View
 INVARIANTS TypeOK Isolation NoDangling
